@@ -1,31 +1,110 @@
+// tmclient: drives the real 07-tendermint light client (and the 02-client keeper paths around it)
+// and writes correspondence cases for the Lean model `tmmodel tmclient`.
+//   tmclient -groups update,raw -n 300 -monitor 300 -cases cases.jsonl -violations viol.jsonl
+//   tmclient -replay requests.jsonl -cases cases.jsonl
 package main
 
 import (
+	"bufio"
+	"encoding/json"
+	"flag"
 	"fmt"
-	"testing"
-	"time"
+	"os"
+	"strings"
 
-	ibctesting "github.com/cosmos/ibc-go/v11/testing"
-	ibctm "github.com/cosmos/ibc-go/v11/modules/light-clients/07-tendermint"
-	clienttypes "github.com/cosmos/ibc-go/v11/modules/core/02-client/types"
+	"verif/harness/lib"
+	"verif/harness/tmclient"
 )
 
 func main() {
-	t0 := time.Now()
-	t := &testing.T{}
-	coord := ibctesting.NewCoordinator(t, 2)
-	a := coord.GetChain(ibctesting.GetChainID(1))
-	b := coord.GetChain(ibctesting.GetChainID(2))
-	path := ibctesting.NewPath(a, b)
-	path.SetupClients()
-	fmt.Println("setup", time.Since(t0), path.EndpointA.ClientID)
-	cs := a.GetClientState(path.EndpointA.ClientID).(*ibctm.ClientState)
-	fmt.Println(cs.LatestHeight, cs.ChainId, cs.TrustingPeriod)
-	store := a.App.GetIBCKeeper().ClientKeeper.ClientStore(a.GetContext(), path.EndpointA.ClientID)
-	it := store.Iterator(nil, nil)
-	for ; it.Valid(); it.Next() {
-		fmt.Printf("%q => %d bytes\n", it.Key(), len(it.Value()))
+	groups := flag.String("groups", "", "comma-separated group names (empty = all)")
+	n := flag.Int("n", 100, "histories per group (cases written)")
+	mon := flag.Int("monitor", 100, "extra histories per group evaluated by the monitors only")
+	casesPath := flag.String("cases", "cases.jsonl", "output: correspondence cases")
+	violPath := flag.String("violations", "violations.jsonl", "output: monitor violations")
+	replay := flag.String("replay", "", "evaluate the requests of this JSON-lines file instead of generating")
+	flag.Parse()
+
+	cs, err := lib.NewSink(*casesPath)
+	if err != nil {
+		fmt.Fprintln(os.Stderr, err)
+		os.Exit(2)
 	}
-	it.Close()
-	fmt.Printf("%x\n", ibctm.VerifBigEndianHeightBytes(clienttypes.NewHeight(1, 47)))
+	env := tmclient.NewEnv()
+	if *replay != "" {
+		env.SetSinks(func(in lib.M, out any) { cs.Put(lib.Case{In: in, Out: out}) }, func(any) {})
+		doReplay(env, *replay)
+		cs.Close()
+		fmt.Printf("cases=%d\n", cs.N)
+		return
+	}
+	vs, err := lib.NewSink(*violPath)
+	if err != nil {
+		fmt.Fprintln(os.Stderr, err)
+		os.Exit(2)
+	}
+	want := map[string]bool{}
+	for _, g := range strings.Split(*groups, ",") {
+		if g != "" {
+			want[g] = true
+		}
+	}
+	seed := lib.EnvSeed()
+	found := 0
+	perKey := map[string]int{}
+	report := func(v any) {
+		k := tmclient.ViolKey(v)
+		perKey[k]++
+		if perKey[k] <= 3 {
+			vs.Put(v)
+		}
+	}
+	for _, g := range tmclient.Groups {
+		if len(want) > 0 && !want[g.Name] {
+			continue
+		}
+		found++
+		r := lib.NewRng(seed ^ hash(g.Name))
+		env.SetSinks(func(in lib.M, out any) { cs.Put(lib.Case{In: in, Out: out}) }, report)
+		g.Gen(env, r.Fork(), *n)
+		env.SetSinks(func(lib.M, any) {}, report)
+		g.Gen(env, r.Fork(), *mon)
+	}
+	cs.Close()
+	vs.Close()
+	if found == 0 {
+		fmt.Fprintln(os.Stderr, "no such group")
+		os.Exit(2)
+	}
+	fmt.Printf("cases=%d violations=%d\n", cs.N, vs.N)
+}
+
+func hash(s string) uint64 {
+	h := uint64(1469598103934665603)
+	for i := 0; i < len(s); i++ {
+		h ^= uint64(s[i])
+		h *= 1099511628211
+	}
+	return h
+}
+
+func doReplay(env *tmclient.Env, path string) {
+	f, err := os.Open(path)
+	if err != nil {
+		fmt.Fprintln(os.Stderr, err)
+		os.Exit(2)
+	}
+	defer f.Close()
+	sc := bufio.NewScanner(f)
+	sc.Buffer(make([]byte, 1<<20), 1<<28)
+	for sc.Scan() {
+		var in lib.M
+		if err := json.Unmarshal(sc.Bytes(), &in); err != nil {
+			continue
+		}
+		if inner, ok := in["in"].(map[string]any); ok {
+			in = inner
+		}
+		env.Replay(in)
+	}
 }
